@@ -537,7 +537,7 @@ PROPS = {
     "C09": {
         "pkgs": [MOD + "/reassembly"],
         "static": [("reassembly", "c09.go")],
-        "bounds": "Sequence lemma over all 2^64 pairs (distance < 2^30); histories: SYN + k <= 2 (quick) / 3 (thorough) segments with symbolic offset 0..7 and length 0..3 into an 11-byte symbolic stream, fully symbolic 32-bit ISN, stream optionally keeping the last byte (KeepFrom), optional FlushWithOptions after each segment and final FlushAll",
+        "bounds": "Sequence lemma over all 2^64 pairs (distance < 2^30); histories: SYN + k <= 2 (quick) / 3 (thorough) segments with symbolic offset 0..7 and length 0..3 into an 11-byte symbolic stream, fully symbolic 32-bit ISN, stream optionally keeping the last byte (KeepFrom), optional FlushWithOptions after each segment and final FlushAll (the quick unit with both keep and flush: offsets 0..5, lengths 1..3); with all segments arrived before the first flush: a skip announces only bytes that never arrived and flush-all delivers every arrived byte",
         "outside": "longer histories, multi-page segments, both directions interleaved, page limits",
         "quick": {"timeout": 900, "units": "verif_C09_(seq_lemma|hist2|hist2_keep|hist2_flush_keep)"},
         "thorough": {"timeout": 3000},
